@@ -155,7 +155,7 @@ def _make_mcaller():
 
     class SimHttpCaller(MCallerHttp):
         """Http caller used for help rendering"""
-        _HTTP_PREFIX_MAP = {"compA": "/a"}
+        _HTTP_PREFIX_MAP = {"compA": "/a", "compB": "/b"}
 
         @method_http("basic", "compA")
         def needs_basic(self, x):
@@ -167,6 +167,13 @@ def _make_mcaller():
         @method_http(None, "compZ")
         def needs_other_component(self):
             """Component is not configured
+
+            #net
+            """
+
+        @method_http(None, ["compA", "compB"])
+        def ambiguous_component(self):
+            """Two configured components match
 
             #net
             """
@@ -239,6 +246,20 @@ class RaisingFieldType(FieldType):
         return super().make_desired_cell_ch_chunks(value, fmt_modifier, field_palette)
 
 
+class CenterFieldType(FieldType):
+    """a user's field type that centres its values"""
+
+    def make_desired_cell_ch_chunks(self, value, fmt_modifier, field_palette):
+        chunks, _ = super().make_desired_cell_ch_chunks(value, fmt_modifier, field_palette)
+        return chunks, akppobj.ALIGN_CENTER
+
+
+def width_field_type(args):
+    """[lo, hi] or [lo, hi, "center"] -> a plain field type with its own default width bounds"""
+    cls = CenterFieldType if len(args) > 2 and args[2] == "center" else FieldType
+    return cls(min_width=args[0], max_width=args[1])
+
+
 class NestedValue:
     """a cell value whose text is itself produced by the package (a rendering inside a rendering)"""
 
@@ -284,8 +305,8 @@ def build_object(spec, enums):
         if spec.get("wtypes"):
             # plain field types with their own default width bounds
             ft = kw.setdefault("fields_types", {})
-            for n, (lo, hi) in spec["wtypes"].items():
-                ft.setdefault(n, FieldType(min_width=lo, max_width=hi))
+            for n, args in spec["wtypes"].items():
+                ft.setdefault(n, width_field_type(args))
         if spec.get("poison"):
             kw.setdefault("fields_types", {}).setdefault(spec["poison"], RaisingFieldType())
         if spec.get("titles"):
@@ -320,6 +341,19 @@ def build_object(spec, enums):
     if k == "hdoc":
         return Built(k, hdoc_object(spec["what"]), spec)
     raise ValueError(k)
+
+
+def build_sibling(src, spec, limits, skip):
+    """a second table made from the format object of a live one (fmt_obj=other.fmt), with its own records,
+    optionally its own limits and skipped columns.  spec: the description of the equal fresh table"""
+    recs = _records(spec)
+    kw = {}
+    if limits is not None:
+        kw["limits"] = tuple(limits)
+    if skip:
+        kw["skip_columns"] = list(skip)
+    t = PPTable(recs, header=spec.get("header"), footer=spec.get("footer"), fmt_obj=src.obj.fmt, **kw)
+    return Built("table", t, spec, recs)
 
 
 class Rendering:
